@@ -17,7 +17,7 @@ func (r *Rng) Intn(n int) int {
 	}
 	return int(r.U64() % uint64(n))
 }
-func (r *Rng) Bool() bool       { return r.U64()&1 == 1 }
+func (r *Rng) Bool() bool        { return r.U64()&1 == 1 }
 func (r *Rng) Chance(p int) bool { return r.Intn(100) < p }
 func (r *Rng) Bytes(n int) []byte {
 	b := make([]byte, n)
@@ -26,7 +26,7 @@ func (r *Rng) Bytes(n int) []byte {
 	}
 	return b
 }
-func (r *Rng) Fork() *Rng { return &Rng{s: r.U64()} }
+func (r *Rng) Fork() *Rng          { return &Rng{s: r.U64()} }
 func Pick[T any](r *Rng, xs []T) T { return xs[r.Intn(len(xs))] }
 
 func hexs(b []byte) string {
